@@ -28,6 +28,10 @@ func flags(fs *flag.FlagSet) (cfg *Config, srcs, provs *string, unitMs *int) {
 // replayOne runs one behaviour; returns the driver (for its outcome) after at most 3 attempts when timing was disturbed.
 func replayOne(cfg Config, b *behaviour) *Driver {
 	var d *Driver
+	timed := hasTick(b)
+	if !timed {
+		cfg.TTLUnits = 1 << 20 // no Tick in the behaviour: the model clock never advances, so nothing may expire
+	}
 	for attempt := 0; attempt < 3; attempt++ {
 		var err error
 		d, err = NewDriver(cfg)
@@ -40,7 +44,7 @@ func replayOne(cfg Config, b *behaviour) *Driver {
 			if !d.Apply(i, &b.Steps[i]) {
 				break
 			}
-			if d.Drift() > slack {
+			if timed && d.Drift() > slack {
 				d.Inconclusive = fmt.Sprintf("real time ran %v ahead of the model clock", d.Drift())
 				break
 			}
@@ -54,6 +58,15 @@ func replayOne(cfg Config, b *behaviour) *Driver {
 		}
 	}
 	return d
+}
+
+func hasTick(b *behaviour) bool {
+	for _, s := range b.Steps {
+		if s.A == "Tick" {
+			return true
+		}
+	}
+	return false
 }
 
 // Run is "harness c06": replay TLC behaviours of ProviderCache.tla.
